@@ -64,8 +64,23 @@ pub fn exec_line(line: &str) -> String {
 
 /// a deposit onto `old`: balanced / skewed / partial
 fn gen_new_assets(r: &mut Rng, pool: &mantra_dex_std::pool_manager::PoolInfo) -> Vec<cosmwasm_std::Coin> {
-    let shape = r.below(6);
+    let shape = r.below(7);
     let frac_num = 1 + r.below(2000) as u128; // per-mille-ish of reserves
+    if shape == 6 {
+        // a roughly balanced deposit after which the FIRST and the LAST reserve are exactly equal in the common precision while
+        // the ones in between are not (and the reserves were not equal before): any "is the pool balanced" shortcut that looks
+        // at two of n reserves takes the wrong branch here
+        let n = pool.assets.len();
+        let maxd = *pool.asset_decimals.iter().max().unwrap_or(&0) as u32;
+        let scale = |i: usize| 10u128.pow((maxd - pool.asset_decimals[i] as u32).min(30));
+        let mut out: Vec<cosmwasm_std::Coin> = pool.assets.iter().map(|c| { let a = c.amount.u128(); cosmwasm_std::coin(a.saturating_add(a / 1000 * frac_num / 10), c.denom.clone()) }).collect();
+        let hi = out[0].amount.u128().saturating_mul(scale(0)).max(out[n - 1].amount.u128().saturating_mul(scale(n - 1)));
+        let unit = scale(0).max(scale(n - 1));
+        let target = (hi / unit + 1).saturating_mul(unit);
+        out[0].amount = Uint128::new(target / scale(0));
+        out[n - 1].amount = Uint128::new(target / scale(n - 1));
+        return out;
+    }
     pool.assets.iter().enumerate().map(|(i, c)| {
         let a = c.amount.u128();
         let add = match shape {
@@ -142,6 +157,26 @@ pub fn gen_line(r: &mut Rng) -> String {
             let first = r.chance(1, 5);
             if first { for a in p.assets.iter_mut() { a.amount = Uint128::zero(); } }
             let mut newc = gen_new_assets(r, &p);
+            // directed: a 3-4 asset pool whose first and last reserves differ by a hair, and an (almost) equal-amounts deposit —
+            // inside the 1 % "balanced" shortcut — that makes exactly those two equal while the middle ones stay different
+            if !first && p.assets.len() >= 3 && r.chance(1, 6) {
+                let n = p.assets.len();
+                let maxd = *p.asset_decimals.iter().max().unwrap() as u32;
+                let sc: Vec<u128> = (0..n).map(|i| 10u128.pow((maxd - p.asset_decimals[i] as u32).min(30))).collect();
+                let unit = sc[0].max(sc[n - 1]);
+                let base = (p.assets[0].amount.u128().saturating_mul(sc[0]) / unit).max(1000) * unit;    // common-precision value of the first reserve
+                let x = (base / unit / [20u128, 100, 1000][r.below(3) as usize]).max(400) * unit;          // the deposit, in the common precision
+                let delta = (1 + r.below(3) as u128) * unit;                                              // the hair (<< 1 % of x)
+                if base.checked_add(x).and_then(|v| v.checked_add(delta)).is_some() && base + x + delta < u128::MAX / 4 {
+                    p.assets[0].amount = Uint128::new(base / sc[0]);
+                    p.assets[n - 1].amount = Uint128::new((base + delta) / sc[n - 1]);
+                    newc = (0..n).map(|i| {
+                        let a = p.assets[i].amount.u128();
+                        let add = if i == 0 { (x + delta) / sc[0] } else { x / sc[i] };
+                        cosmwasm_std::coin(a.saturating_add(add), p.assets[i].denom.clone())
+                    }).collect();
+                }
+            }
             if first { for (i, c) in newc.iter_mut().enumerate() { c.amount = Uint128::new(rand_mag(r, 12) * 10u128.pow(p.asset_decimals[i].min(18) as u32) / 1000 + r.below(3) as u128); } }
             let supply = if first { 0 } else {
                 // roughly D in max precision
@@ -180,6 +215,16 @@ fn monitors(line: &str, res: &str, o: &mut Out) {
             let coins = t.coins();
             let xs: Vec<String> = coins.iter().map(|c| c.amount.to_string()).collect();
             o.line(&format!("mon_d_conv {} {} {} {}", amp, xs.len(), xs.join(" "), d), "ok");
+        }
+        "lpmint" => {
+            // C02 (stableswap): the exact invariant per LP token does not fall through the deposit this mint belongs to
+            let pool = t.pool();
+            let supply = t.u128();
+            let coins = t.coins();
+            if matches!(pool.pool_type, PoolType::ConstantProduct) || supply == 0 || coins.len() != pool.assets.len() { return; }
+            let Ok(minted) = d.parse::<u128>() else { return };
+            let after: Vec<String> = coins.iter().map(|c| c.amount.to_string()).collect();
+            o.line(&format!("mon_ss_lp {} {} {} {} {}", crate::proto::pool_str(&pool), after.len(), after.join(" "), supply, supply.saturating_add(minted)), "ok");
         }
         "computedpi" => {
             let pool = t.pool();
